@@ -5,7 +5,7 @@ from sqv import hlib
 from spec import container_model as M
 from smartquery.exceptions import ParserError
 from smartquery.custom_types import Decimal
-from sqv.api import run_eval, prewarm
+from sqv.api import run_eval, prewarm, PARSER as PARSER_PLAIN
 
 DEC_IDX = [Decimal('0'), Decimal('1'), Decimal('1.7'), Decimal('-1'), Decimal('-1.5'), Decimal('2.999'), Decimal('-0.3'),
            Decimal('5'), Decimal('-5'), Decimal('3'), Decimal('-4')]
@@ -106,6 +106,10 @@ WRITE = ["d[k] = v", "d = {k: v}", "d[k] = zero\nd[k] += v", "d = {k: zero}\nd[k
 READ = ["d[k]", "get(d, k)", "__getitem__(d, k)", "get(d, k, zero - one)"]
 if isinstance(hlib.PARAM, dict) and "text" in hlib.PARAM:
     prewarm(hlib.PARAM["text"])
+if isinstance(hlib.PARAM, dict) and "f" in hlib.PARAM:
+    prewarm(["rows = [one, one] | map(k => [])\nrows[zero].push(a)\nrows[one]", "f = k => [one, one]\nf(one).push(a)\nf(one)",
+             "g = k => {'t': []}\ng(one)['t'].push(a)\ng(one)['t']", "[one, one] | map(v => [zero].pop()) | len",
+             "h = k => []\nh(one) | push(a)\nlen(h(one))"][hlib.PARAM["f"]])
 if isinstance(hlib.PARAM, dict) and "w" in hlib.PARAM:
     prewarm(*[WRITE[hlib.PARAM["w"]] + "\n" + r for r in READ])
     prewarm(WRITE[hlib.PARAM["w"]] + "\ndel d[k]\nlen(d)", WRITE[hlib.PARAM["w"]] + "\nkeys(d)")
@@ -167,4 +171,54 @@ def two_keys(ki: int, kj: int, v1: int, v2: int) -> None:
         assert out[0] == 'ok' and out[1] == exp[1], "two-key sequence: result differs from the model"
     else:
         assert out[0] == 'err' and issubclass(out[1], ParserError), "two-key sequence: reading a key that was never written must fail"
+    hlib.done()
+
+
+FRESH = [
+    ("rows = [one, one] | map(k => [])\nrows[zero].push(a)\nrows[one]", []),
+    ("f = k => [one, one]\nf(one).push(a)\nf(one)", [1, 1]),
+    ("g = k => {'t': []}\ng(one)['t'].push(a)\ng(one)['t']", []),
+    ("[one, one] | map(v => [zero].pop()) | len", 2),
+    ("h = k => []\nh(one) | push(a)\nlen(h(one))", 0),
+]
+
+
+def literal_fresh(a: int) -> None:
+    """
+    pre: True
+    post: True
+    """
+    # a list / dict literal denotes a NEW container every time it is evaluated (no state shared between evaluations)
+    hlib.enter(locals())
+    text, want = FRESH[hlib.PARAM["f"]]
+    out = run_eval(text, {'a': a, 'zero': 0, 'one': 1}, 1000)
+    assert out[0] == 'ok' and out[1] == want, "a container literal evaluated again still holds what an earlier evaluation's result was given"
+    hlib.done()
+
+
+def list_values_decimal(vi: int, n: int) -> None:
+    """
+    pre: 0 <= vi < 11 and 0 <= n <= 4
+    post: True
+    """
+    # operations that take a VALUE (not a position): decimals are compared as they are, never truncated
+    hlib.enter(locals())
+    op = hlib.PARAM["vop"]
+    vi, n = hlib.concrete(vi, 0, 10), hlib.concrete(n, 0, 4)
+    with hlib.native():
+        base = [Decimal('2'), Decimal('2.5'), Decimal('0'), Decimal('-1.5')][:n] + [7]
+        v = DEC_IDX[vi]
+        l = list(base)
+        text = {"remove": "remove(l, v)", "index_of": "index_of(l, v)", "in": "v in l"}[op]
+        out = run_eval(text, {'l': l, 'v': v}, 100, parser=PARSER_PLAIN)
+        if op == "remove":
+            exp, after = M.l_remove(list(base), v)
+        elif op == "index_of":
+            exp, after = M.l_index_of(list(base), v)
+        else:
+            exp, after = ('ok', any(x == v for x in base)), list(base)
+        ok_after = (l == after)
+        ok_val = (exp[0] != 'ok' or op == "remove" or (out[0] == 'ok' and out[1] == exp[1]))
+    assert ok_after, "%s with the value %s: list afterwards differs from the model (a value is not a position: no truncation)" % (text, v)
+    assert ok_val, "%s with the value %s: result differs from the model" % (text, v)
     hlib.done()
